@@ -36,7 +36,7 @@ RULE = (
     "inserts a probe before/after every statement and in every argument list, % for iterable expression, def/text filter, decorator (before and "
     "after the call), cached body and supports_caller function, and observers of loop/caller/a fresh def call after "
     "every % try. Case = (program, include_error_handler off/True/False, set of armed probes: none, each single probe, "
-    "each pair for programs of weight<=WP); canonical = printed files + armed set; cases whose armed probes do not all "
+    "each pair for programs of weight<=WP, and for F1 programs each single probe raising the BaseException-only kind); canonical = printed files + armed set; cases whose armed probes do not all "
     "fire and include_error_handler cases that do not differ from the off case are dropped as duplicates of a smaller "
     "case. Each case is run under every handler that applies: none (render_unicode), caller of render_context, "
     "error_handler returning True, and for programs of weight<=WF error_handler returning False and format_exceptions. "
@@ -52,13 +52,14 @@ ASSUMPTIONS = [
     "(a raise in a creation function must leave no entry), stored values are checked through the output of later hits",
     "format_exceptions / error_handler-returns-False are run at every crash point only for programs of weight<=WF: _render_error runs after every "
     "finally clause has run and replaces the buffer stack, so it cannot depend on where the exception came from (html_error_template costs 8 ms per render)",
-    "Boom derives from Exception; BaseException-only crash points (KeyboardInterrupt) are not enumerated; <%block>, <%page> flags, namespace-call "
+    "two raise kinds: Boom(Exception) everywhere; BoomBase(BaseException, constructor needs arguments) at every probe of the F1 programs, one per render, "
+    "under none / render_context / error_handler True / error_handler False / include_error_handler True and False - nothing in a render may catch it; <%block>, <%page> flags, namespace-call "
     "spellings and expression filters are not in the grammar (they emit the same try/finally sites as nested/top-level defs and <%call>)",
     "the design's bound W=5/7 over the full flag set is infeasible (1.1e6 programs at modifier-weight 5): the bounds reported are what is enumerated completely",
 ]
 BOUNDS = {
-    "quick": {"W1_modifier_weight": 3, "W2_nodes_all_flags": 2, "W2_root_body": "one statement", "WT_wrapped_nodes": 2, "WT_flags": "<=1 per def", "WP_pairs": 2, "WF_error_page_all_points": 2, "for_iterations": 2},
-    "thorough": {"W1_modifier_weight": 4, "W2_nodes_all_flags": 2, "W3_nodes_single_flags": 3, "WT_wrapped_nodes": 2, "WT_flags": "every subset", "WP_pairs": 3, "WF_error_page_all_points": 3, "for_iterations": 2},
+    "quick": {"W1_modifier_weight": 3, "W2_nodes_all_flags": 2, "W2_root_body": "one statement", "WT_wrapped_nodes": 2, "WT_flags": "<=1 per def", "WP_pairs": 2, "WF_error_page_all_points": 2, "BaseException_kind": "every probe of the F1 programs", "for_iterations": 2},
+    "thorough": {"W1_modifier_weight": 4, "W2_nodes_all_flags": 2, "W3_nodes_single_flags": 3, "WT_wrapped_nodes": 2, "WT_flags": "every subset", "WP_pairs": 3, "WF_error_page_all_points": 3, "BaseException_kind": "every probe of the F1 programs", "for_iterations": 2},
 }
 LEVEL_TEXT = (
     "Every program of the stated grammar within the bounds is rendered by the real code once per crash point and handler; output after the "
@@ -77,6 +78,7 @@ LETTER_POOLS = [
 
 MODES_ESC = ("plain", "rc", "eh", "ehf", "fe")
 MODES_OK = ("plain", "rc")
+MODES_BASE = ("plain", "rc", "eh", "ehf")  # BaseException-only raise kind (no error page: what it shows for a class is not fixed)
 
 
 def letters(seed):
@@ -248,7 +250,7 @@ def run_mode(world, mode, targets, r1, r2, cached):
             out = buf.getvalue()
         else:
             out = t.render_unicode(T=T)
-    except env.Boom as e:
+    except (env.Boom, env.BoomBase) as e:
         exc = e
     except Exception as e:  # noqa
         bad.append(("foreign-exception", "first render raises %s" % type(e).__name__, None, "%s: %s" % (type(e).__name__, str(e)[:200])))
@@ -263,8 +265,8 @@ def run_mode(world, mode, targets, r1, r2, cached):
         else:
             if exc is None:
                 bad.append(("propagate", "unhandled exception does not propagate", "Boom(%d)" % esc, out))
-            elif not (env.RAISED and exc is env.RAISED[-1] and exc.args[0] == esc):
-                bad.append(("identity", "a different exception object propagates", "Boom(%d)" % esc, repr(exc)))
+            elif not (env.RAISED and exc is env.RAISED[-1] and exc.args == (esc, "kaboom#%d" % esc) and isinstance(exc, env.BoomBase) == r1["base"]):
+                bad.append(("identity", "a different exception object propagates", "%s(%d)" % ("BoomBase" if r1["base"] else "Boom", esc), repr(exc)))
         if mode == "rc" and not bad:
             # state of the Context after render_context returned or raised
             st = (len(ctx._buffer_stack), ctx._buffer_stack[0] is buf, len(ctx.caller_stack), ctx.caller_stack.nextcaller)
@@ -324,6 +326,8 @@ def make_sig(oracle, mode, ieh, r1):
         pk = r1["pkinds"][-1].split("[")[0]
         if pk in ("stmt", "arg"):
             pk = "body"
+        if r1.get("base"):
+            pk += ":BaseException"
         return "%s|%s|%s" % (oracle, how, pk)
     return "%s|%s|no raise" % (oracle, mode)
 
@@ -344,7 +348,7 @@ class Runner:
         self.seed = seed
         self.seen = set()
 
-    def program(self, skel, pairs, fe_all):
+    def program(self, skel, pairs, fe_all, base_kind=False):
         st = self.st
         prog = ir.finalise(skel, letters(self.seed))
         texts = ir.print_program(prog)
@@ -364,6 +368,8 @@ class Runner:
         tsets = [()] + [(i,) for i in range(1, n + 1)]
         if pairs:
             tsets += [(i, j) for i in range(1, n + 1) for j in range(i + 1, n + 1)]
+        if base_kind:
+            tsets += [(-i,) for i in range(1, n + 1)]
         # reference first (cheap): which cases exist, and which of them gets the format_exceptions run
         cases = []
         for targets in tsets:
@@ -377,7 +383,12 @@ class Runner:
                     base = (r1["out"], r1["escaped"], r2["out"])
                     base_r = (r1, r2)
                 elif (r1["out"], r1["escaped"], r2["out"]) == base:
-                    st.extra["ieh_same_dropped"] = st.extra.get("ieh_same_dropped", 0) + 1
+                    if r1["base"] and any("inc" in p for p in r1["inside"]):
+                        # a BaseException raised under an <%include>: neither kind of include_error_handler may see it
+                        cases.append((targets, True, r1, r2))
+                        cases.append((targets, "F", r1, r2))
+                    else:
+                        st.extra["ieh_same_dropped"] = st.extra.get("ieh_same_dropped", 0) + 1
                     continue
                 cases.append((targets, ieh, r1, r2))
                 if ieh:
@@ -387,8 +398,14 @@ class Runner:
         for ci, (targets, ieh, r1, r2) in enumerate(cases):
             st.states += 1
             nt = False
-            for mode in ("plain",) if ieh == "F" else (MODES_ESC if r1["escaped"] is not None else MODES_OK):
-                if mode in ("fe", "ehf") and not fe_all:
+            if r1["base"]:
+                modes = ("plain",) if ieh else MODES_BASE
+            elif ieh == "F":
+                modes = ("plain",)
+            else:
+                modes = MODES_ESC if r1["escaped"] is not None else MODES_OK
+            for mode in modes:
+                if mode in ("fe", "ehf") and not (fe_all or r1["base"]):
                     continue
                 wk = (mode if mode != "rc" else "plain", ieh)
                 w = worlds.get(wk)
@@ -408,7 +425,7 @@ class Runner:
                 nt = nt or is_nontrivial(r1, mode)
                 cls = (
                     mode,
-                    "escaped" if r1["escaped"] is not None else ("handled:" + ",".join(sorted(set(r1["handled"]))) if r1["raised"] else "noraise"),
+                    ("escaped-base" if r1["base"] else "escaped") if r1["escaped"] is not None else ("handled:" + ",".join(sorted(set(r1["handled"]))) if r1["raised"] else "noraise"),
                     len(r1["raised"]),
                 )
                 st.outcomes[cls] += 1
@@ -451,7 +468,7 @@ def run_job(job):
         run = Runner(st, job["seed"])
         for idx in range(job["shard"], len(sk), job["nshards"]):
             s = sk[idx]
-            run.program(s, modweight(s) <= b["WP_pairs"], modweight(s) <= b["WF_error_page_all_points"])
+            run.program(s, modweight(s) <= b["WP_pairs"], modweight(s) <= b["WF_error_page_all_points"], job["fam"] == "F1")
     finally:
         st.extra["cpu_s"] = round(time.process_time() - t0, 2)
         st.extra["worker_wall_s"] = round(time.time() - w0, 2)
